@@ -88,6 +88,22 @@ def _selftest_probe(chk, probe):
     return True
 
 
+def _action_coverage(chk):
+    """tlc -coverage 1 on the tiny configuration: how often each action of Spawn.tla fired"""
+    import re
+    path = os.path.join(chk.work, "Spawn_cov.cfg")
+    with open(path, "w") as f:
+        f.write("CONSTANTS\n  StartFeature = TRUE\n  Dev = {}\n  Cfgs <- CfgsTiny\n  Faults <- FaultsQuick\n"
+                "INIT InitMC\nNEXT Next\nINVARIANTS VectorsTerminated AbsHolds\nCHECK_DEADLOCK TRUE\n")
+    md = os.path.join(core.WORK, "tlc-meta", "Spawn_MC-%d-cov" % os.getpid())
+    r = core.run_tlc("Spawn_MC.tla", path, workers=1, timeout=600, metadir=md, coverage=True)
+    core.tlc_must_pass(r, "Spawn_MC coverage")
+    cov = {}
+    for m in re.finditer(r"^<(\w+) line \d+, col \d+ to line \d+, col \d+ of module Spawn(?: \([\d ]+\))?>: (\d+):(\d+)", r.out, re.M):
+        cov[m.group(1)] = cov.get(m.group(1), 0) + int(m.group(3))
+    return cov
+
+
 def model_selftest_jobs(chk, ex):
     """The named deviations of the pinned tree must be exhibited by TLC in the model (anti-vacuity
     of the invariants), and every probe state must be reachable."""
@@ -492,8 +508,13 @@ def run(tier):
     with concurrent.futures.ThreadPoolExecutor(max_workers=6) as ex:
         futs = {v: ex.submit(tlc_plans, chk, tier, VARIANTS[v][1]) for v in set(MODEL_OF.values())}
         sfuts = model_selftest_jobs(chk, ex)
+        cfut = ex.submit(_action_coverage, chk)
         tlcres = {v: futs[MODEL_OF[v]].result() for v in VARIANTS}
         chk.extra["model_selftest"] = {k: f.result() for k, f in sfuts.items()}
+        cov = cfut.result()
+        chk.extra["model_action_coverage_tiny"] = cov
+        # CallerCopyExits only exists under the deviation ChildReturnsErr (exercised by the self-test)
+        chk.extra["model_actions_not_exercised"] = sorted(a for a, n in cov.items() if n == 0 and a not in ("CallerCopyExits", "Next"))
     core.log("Spawn_MC x2 + model self-test %.1fs" % (time.time() - t0))
     def variant_work(variant, seed):
         template = VARIANTS[variant][0]
